@@ -77,8 +77,19 @@ impl BetTable {
         reader.seek(SeekFrom::Start(offset))?;
 
         // Read the compressed/encrypted data
-        let mut data = vec![0u8; compressed_size as usize];
-        reader.read_exact(&mut data)?;
+        // The size comes from the archive header: read through a length-limited adapter
+        // instead of allocating it up front
+        let mut data = Vec::new();
+        reader
+            .by_ref()
+            .take(compressed_size)
+            .read_to_end(&mut data)?;
+        if data.len() as u64 != compressed_size {
+            return Err(Error::invalid_format(format!(
+                "BET table announces {compressed_size} bytes but only {} are present",
+                data.len()
+            )));
+        }
 
         // Check if we have at least the extended header (12 bytes)
         if data.len() < 12 {
@@ -181,6 +192,19 @@ impl BetTable {
         // Parse the rest of the table - data starts after extended header + BET header
         let data_start = 12 + std::mem::size_of::<BetHeader>();
         let mut cursor = std::io::Cursor::new(&table_data[data_start..]);
+
+        // The counts come from the table itself: everything they announce must be
+        // present in the table data before anything is sized from them
+        let file_table_bits = header.file_count as u64 * header.table_entry_size as u64;
+        let announced = header.flag_count as u64 * 4
+            + file_table_bits.div_ceil(8)
+            + header.bet_hash_array_size as u64;
+        let available = (table_data.len() - data_start) as u64;
+        if announced > available {
+            return Err(Error::invalid_format(format!(
+                "BET table announces {announced} bytes of arrays but holds {available}"
+            )));
+        }
 
         // Read file flags
         let mut file_flags = Vec::with_capacity(header.flag_count as usize);
